@@ -121,6 +121,15 @@ type fetchRes struct {
 func doFetch(f *ntske.Fetcher, o *op) (string, bool, ntske.Data) {
 	o.host = hostOf(&o.sc)
 	f.TLSConfig.ServerName = o.host
+	f.Port = strconv.Itoa(peer.port())
+	if o.named && peer.ln2 != nil && o.sc.mode == 0 {
+		// a DNS-style name: the default NTP server is the address of the connection, not the name
+		f.TLSConfig.ServerName = "localhost"
+		f.Port = strconv.Itoa(peer.port2())
+		o.host = "127.0.0.1"
+	} else {
+		o.named = false
+	}
 	peer.begin(&o.sc)
 	ch := make(chan fetchRes, 1)
 	go func() {
@@ -149,22 +158,33 @@ func doFetch(f *ntske.Fetcher, o *op) (string, bool, ntske.Data) {
 
 // hist is one history on one fresh Fetcher.
 type hist struct {
-	f        *ntske.Fetcher
-	q        *quicPeer // non-nil: the Fetcher has QUIC.Enabled and this is its scripted peer (kind ke.quic)
-	deferred bool      // written later by the caller
-	ops      []op
-	obs      []string
-	tags     map[string]bool
-	lastOK   bool
-	pool     int // cookies the fetcher should still hold, as far as the harness can tell
+	f         *ntske.Fetcher
+	q         *quicPeer // non-nil: the Fetcher has QUIC.Enabled and this is its scripted peer (kind ke.quic)
+	deferred  bool      // written later by the caller
+	ops       []op
+	obs       []string
+	tags      map[string]bool
+	lastOK    bool
+	nameEvery int // every nameEvery-th FetchData is given the name "localhost" (0: never)
+	fetches   int
+	pool      int // cookies the fetcher should still hold, as far as the harness can tell
 }
 
 func newHist(r *lib.Rng) *hist {
-	return &hist{f: newFetcher(r), tags: map[string]bool{}}
+	h := &hist{f: newFetcher(r), tags: map[string]bool{}}
+	if r.Intn(3) == 0 {
+		h.nameEvery = 1 + r.Intn(3)
+	}
+	return h
 }
 
 func (h *hist) fetch(sc script) (bool, ntske.Data) {
 	o := op{sc: sc}
+	h.fetches++
+	if h.q == nil && h.nameEvery > 0 && h.fetches%h.nameEvery == 0 && sc.mode == 0 && peer.ln2 != nil {
+		o.named = true
+		h.tags["name"] = true
+	}
 	var line string
 	var ok bool
 	var d ntske.Data
@@ -220,6 +240,10 @@ func replayOn(h *hist, ops []op, tags string) {
 		if o.store {
 			h.store(o.cookie)
 		} else {
+			h.nameEvery, h.fetches = 0, 0
+			if o.named {
+				h.nameEvery = 1
+			}
 			h.fetch(o.sc)
 		}
 	}
